@@ -1099,6 +1099,10 @@ func runScenario(sc *Scenario) {
 				if err := failpoint.Enable("tikvclient/mockBatchClientSendDelay", fmt.Sprintf("%d*panic(\"verif send loop panic\")", n)); err != nil {
 					ev("HARNESS\tfailpoint enable failed: %v", err)
 				}
+			case "idle":
+				// the idle timer of the pool expires now: batchSendLoop marks the conn idle and returns
+				ev("INJ\tidle\t%d", n)
+				client.VerifFireIdleTimer(rpc, srv.addr, time.Duration(n)*time.Microsecond)
 			case "senddelay":
 				// the repo's failpoint at the top of getClientAndSend with an int value: every batch is held for n ms
 				// before buildWithLimit, so the requests arriving meanwhile land in ONE later build
@@ -1587,6 +1591,20 @@ func genScenario(r *rand.Rand, id int, class string) *Scenario {
 				sc.Callers = append(sc.Callers, cs)
 			}
 		}
+	case "idle": // idle recycling: the idle timer of the pool is made to expire (read-only export hook: idleTimeout is a 3 min
+		// constant) while a trickle of calls is running: batchSendLoop marks the conn idle and returns, calls get
+		// "rpcClient is idle", the next call triggers recycleIdleConnArray (CloseAddrVer), later calls use a new pool. Every
+		// call must return exactly once. Only calls with a deadline (sync time-out / async context deadline): an async call
+		// WITHOUT deadline that is enqueued when the send loop exits on the idle timer is never completed (reported).
+		sc.NHosts = 1 + r.Intn(2)
+		sc.DelayUs, sc.Reorder = 200, 0
+		k := 40 + r.Intn(60)
+		for i := 0; i < k; i++ {
+			sc.Callers = append(sc.Callers, CallerSpec{Host: r.Intn(sc.NHosts), Kind: r.Intn(4), TimeoutMs: 250, CancelUs: -1, StartUs: int64(i)*300 + r.Int63n(200), Async: r.Intn(2) == 0})
+		}
+		for i := 0; i < 2+r.Intn(4); i++ {
+			sc.Faults = append(sc.Faults, Fault{AtUs: 2000 + r.Int63n(int64(k)*300), Kind: "idle", N: 1})
+		}
 	case "limitstarve": // regression class for fix 7ad2a8a: a finite limit, one wave built at once, NO further traffic: the
 		// requests left in the builder must be sent as soon as capacity is released (retry timer), not only when another
 		// request happens to arrive
@@ -1768,7 +1786,7 @@ func main() {
 	tier := os.Getenv("VERIF_TIER")
 	r := rand.New(rand.NewSource(seed*7919 + 17))
 	classes := []string{"plain", "forward", "streamfail", "cancel", "close", "staleepoch", "multiconn", "rebreak", "sendpanic", "staleasync",
-		"builder", "recvpanic", "failpanic", "twopools", "nonbatch", "asyncclose", "limitbatch", "limitstarve", "runloop", "collapse"}
+		"builder", "recvpanic", "failpanic", "twopools", "nonbatch", "asyncclose", "limitbatch", "limitstarve", "runloop", "collapse", "idle"}
 	rounds := 8
 	if tier == "thorough" {
 		rounds = 100
